@@ -1178,13 +1178,17 @@ func (env *LEnv) eval(ctx context.Context, v *LVal) (result *LVal) {
 	}
 	macroDepth := 0
 eval:
+	// The location is recorded BEFORE the limit check: a step-limit or
+	// cancellation error raised here belongs to the form about to be
+	// evaluated, not to wherever the previous evaluation stopped (which may be
+	// a different source file altogether).
+	env.loc = v.source
 	if lerr := env.checkLimits(ctx); lerr != nil {
 		return lerr
 	}
 	if v.spliced {
 		return env.Errorf("spliced value used as expression")
 	}
-	env.loc = v.source
 	if v.source != nil {
 		if d := env.Runtime.Debugger; d != nil && d.IsEnabled() {
 			if d.OnEval(env, v) {
